@@ -80,6 +80,8 @@ def run(model, tier="quick"):
     effects_check(res, model, "Asset.add", _C03.REF_ASSET_ADD, "wallet credit adds the amount", _wfx)
     effects_check(res, model, "Broker.subtract_from_balance", _C03.REF_BROKER_SUB, "broker debit: unknown token rejected unless negative balances are allowed", _wfx)
     effects_check(res, model, "Broker.add_to_balance", _C03.REF_BROKER_ADD, "broker credit: creates the entry when missing", _wfx)
+    from .base_refs import write_gate
+    write_gate(res, model, rule="R-PAIR")     # a closed market REJECTS an operation (never returns normally with nothing moved)
     from ..rules.fresh import fresh_rule
     if "R-FRESH" not in res.rules:
         res.rules.append("R-FRESH")
